@@ -15,6 +15,13 @@ from leaspy.utils.typing import DictParams, DictParamsTorch, IDType, ParamType
 __all__ = ["IndividualParameters"]
 
 
+def _numpy_scalar_to_python(obj):
+    """`default` hook of json.dump: numpy scalars accepted by `add_individual_parameters` are stored as plain numbers."""
+    if isinstance(obj, np.generic):
+        return obj.item()
+    raise TypeError(f"Object of type {type(obj).__name__} is not JSON serializable")
+
+
 class IndividualParameters:
     r"""
     Data container for individual parameters, contains IDs, timepoints and observations values.
@@ -674,7 +681,7 @@ class IndividualParameters:
         kwargs = {"indent": 2, **kwargs}
 
         with open(path, "w") as f:
-            json.dump(json_data, f, **kwargs)
+            json.dump(json_data, f, **{"default": _numpy_scalar_to_python, **kwargs})
 
     @classmethod
     def _load_csv(cls, path: str):
